@@ -567,7 +567,11 @@ package kafka
 //@   modifies heap
 //@   callsite (*connGroup).releaseConn requires err == nil || spec.is(err, asiface(protocol.ErrNoRecord, "protocol.Error"))
 //@ property C18
-//@ property C18 C12
+//@ property C18 C12 C10
+// The user's *tls.Config is shared by every pool and connection of the Transport and by whatever else the program uses it
+// for: connection set-up may fill in a ServerName only on a private copy (a Config allocated by the function itself).
+//@ type crypto/tls::Config
+//@   fieldwrite ServerName requires fresh(self)
 // C12: the version used on a connection is negotiated from the range the broker advertised for that API: the advertised
 // minimum and maximum are handed to SelectVersion in that order.
 //@ func (*connGroup).connect
